@@ -426,6 +426,9 @@ impl Machine {
                 }
                 Expect::Ok
             }
+            // `x -= &(x with its low digits changed and one more high bit)`: always the documented underflow panic; what
+            // it leaves behind in x (digits of x - y mod 2^(64 len), high zero digits included) is the point of the step
+            "u.unwind" => Expect::Panic("biguint-underflow"),
             "u.set_bit" | "i.set_bit" => {
                 if s.int("k") > 40_000 {
                     Expect::Skip
@@ -709,6 +712,14 @@ impl Machine {
                 "u.set_bit" => {
                     obs.wrote_u |= 1 << d;
                     self.u[d].set_bit(k as u64, f != 0);
+                }
+                "u.unwind" => {
+                    obs.wrote_u |= 1 << d;
+                    let len = self.u[d].iter_u64_digits().len() as u64;
+                    let mut y = self.u[d].clone();
+                    y += BigUint::new(s.list32("v"));
+                    y.set_bit(64 * (y.iter_u64_digits().len() as u64).max(len) + (k as u64 % 130), true);
+                    self.u[d] -= &y;
                 }
                 "u.set_zero" => {
                     obs.wrote_u |= 1 << d;
